@@ -355,6 +355,14 @@ pub fn c12_case(ctx: &mut Ctx, rng: &mut Rng) {
     }
     case.sentences.push("   ".into());
     case.sentences.push("\u{3000} ".into());
+    if rng.chance(0.004) {
+        // a run longer than 65535 characters
+        let w = case.sentences[0].trim().to_string();
+        let run: String = std::iter::repeat(' ').take(65_536 + rng.below(50)).collect();
+        case.sentences.push(format!("{w}{run}{w}"));
+        case.sentences.push(run);
+        ctx.bucket("space_run_longer_than_65535");
+    }
     let prep = prepare(&case);
     let (dict, spec, user) = match prep {
         Prep::Ready { dict, spec, user } => (dict, spec, user),
